@@ -326,6 +326,27 @@ def staleLanWorld : World :=
   let w := (prehistory cfgDiffPR).relan 2 1 ⟨ipv4 192 168 1 77, 8090⟩ ⟨ipv4 2 2 2 2, 40077⟩
   ((w.walk 2 addrI).walk 1 addrI).walkAll 1
 
+/-! ## restart of the requester: addresses known without an introducer -/
+
+/-- after the whole script R restarts (fresh Network from its snapshot: P's and I's addresses are known, without
+    introducer; nobody is verified) -/
+def preRestart (c : Cfg) : World := (script c).restart 1
+
+/-- R's first steps after the restart: an (old-style, it has no peers to ask) walk to the introducer, then a walk to what
+    its overlay reports as walkable -/
+def scriptRestart (c : Cfg) : World := ((preRestart c).walk 1 addrI).walkAll 1
+
+/-- after the restart nobody is verified at R and P's address is known but not walkable; the introduction re-parents it,
+    R's walk reaches P, the answer returns, both are verified at each other again -/
+def restartOk (c : Cfg) : Bool :=
+  let w0 := preRestart c
+  let w1 := w0.walk 1 addrI
+  let evs := newEvents w1 (fun w => w.walkAll 1)
+  (w0.verifiedAt 1 2).isNone && (w0.nodes[1]?.map (fun n => (n.walkable 0).isEmpty && !n.all.isEmpty)) == some true &&
+  evs.any (fun e => e.src == 1 && e.isReq && e.delivered 2) &&
+  evs.any (fun e => e.src == 2 && e.isResp && e.delivered 1) &&
+  mutualDyn (scriptRestart c)
+
 /-! ## more candidates at the introducer -/
 
 /-- further candidates (hosts 3..6): public full-cone, port-restricted behind box 1 (R's box whenever R is boxed),
